@@ -109,7 +109,7 @@ pub fn explorer_plan(prop: &str, thorough: bool) -> Option<Plan> {
                 cases: (10000, 150000),
                 required: &["store_probes", "store_full_iters", "store_reader_checks", "overwrites", "del_present", "del_absent", "aborts"],
                 custom_gen: None,
-                rule: "case = explorer history over 1-3 indexes with all-bit-pattern values; after every operation (in the write txn) and after every commit/abort (fresh read txn) contains_item/item_vector/iter/is_empty and the reader's id set are compared bit-for-bit with the shadow model; non-trivial+distinct = distinct forest shapes with splits (builds interleaved) — histories themselves are all distinct by seed",
+                rule: "case = explorer history over 1-3 indexes with all-bit-pattern values; after every operation (in the write txn) and after every commit/abort (fresh read txn) contains_item/item_vector/iter/is_empty and the reader's id set are compared bit-for-bit with the shadow model; non-trivial+distinct = distinct (operation kind, changed/unchanged effect, built?, dirty?, metric, log2 item count) situations in which the monitor ran, plus distinct forest shapes with splits of the interleaved builds",
             }
         }
         "C06" => {
@@ -130,7 +130,7 @@ pub fn explorer_plan(prop: &str, thorough: bool) -> Option<Plan> {
                 cases: (40000, 600000),
                 required: &["open_Ok", "open_NeedBuild", "open_MissingMetadata", "open_wrong_metric", "del_absent", "badlen_rejected", "aborts"],
                 custom_gen: None,
-                rule: "case = short explorer history over 1-3 indexes; after every single operation (in-txn) and after every commit/abort (fresh read txn) Reader::open (right and wrong metric) and need_build are compared with the model's staleness; non-trivial+distinct = distinct forest shapes with splits (kept for uniformity) — the verdict-bearing count is open_* / need_build evaluations",
+                rule: "case = short explorer history over 1-3 indexes; after every single operation (in-txn) and after every commit/abort (fresh read txn) Reader::open (right and wrong metric) and need_build are compared with the model's staleness; non-trivial+distinct = distinct (operation kind, changed/unchanged effect, built?, dirty?, metric, log2 item count) situations after which open/need_build were evaluated, plus distinct forest shapes with splits",
             }
         }
         "C07" => {
@@ -147,7 +147,7 @@ pub fn explorer_plan(prop: &str, thorough: bool) -> Option<Plan> {
                 cases: (8000, 120000),
                 required: &["isolation_dumps_compared", "isolation_foreign_entries", "op_clear", "op_change_metric", "builds_ok"],
                 custom_gen: None,
-                rule: "case = explorer history over 2-4 indexes (adjacent numbers, 0/1/255/256/65534/65535, random; per-index metric; ids at the u32 edges); around every operation the raw dump restricted to the other indexes' prefixes is compared byte for byte; non-trivial+distinct = distinct forest shapes with splits of the operated indexes",
+                rule: "case = explorer history over 2-4 indexes (adjacent numbers, 0/1/255/256/65534/65535, random; per-index metric; ids at the u32 edges); around every operation the raw dump restricted to the other indexes' prefixes is compared byte for byte; non-trivial+distinct = distinct (operation kind, effect, index state, metric, size class) situations plus distinct forest shapes with splits of the operated indexes",
             }
         }
         "C13" => {
@@ -219,7 +219,7 @@ pub fn explorer_plan(prop: &str, thorough: bool) -> Option<Plan> {
                 cases: (8000, 120000),
                 required: &["badlen_rejected", "append_refused", "append_ok", "append_twin_compared", "del_absent", "rejected_dumps_compared"],
                 custom_gen: None,
-                rule: "case = explorer history with wrong-length add/append/search, appends relative to the current maximum key over several indexes, and deletes of absent ids; the raw dump before and after every rejected call must be identical, error variants and fields exact, a valid append byte-identical to add_item; non-trivial+distinct = distinct forest shapes with splits",
+                rule: "case = explorer history with wrong-length add/append/search, appends relative to the current maximum key over several indexes, and deletes of absent ids; the raw dump before and after every rejected call must be identical, error variants and fields exact, a valid append byte-identical to add_item; non-trivial+distinct = distinct (operation kind, effect, index state, metric, size class) situations plus distinct forest shapes with splits",
             }
         }
         "C16" => {
